@@ -591,6 +591,7 @@ theorem step_onePlace {w : World} (hn : 0 < w.nst) (hinv : CacheInv w) (hone : O
     exact ⟨hone.of_subset hsub, fun r hr => hin r (hsub r hr)⟩
   cases c with
   | rmCache u s f => exact ⟨hone, hin⟩
+  | clearCache u => exact ⟨hone, hin⟩
   | run u c crash =>
     cases c with
     | assignTag f t n v st => exact absurd hc (by simp [Plain])
